@@ -55,6 +55,7 @@ type axiomRange struct {
 
 type Unit struct {
 	axioms []axiomRange
+	aliases map[string]string // rename tolerance: contract name -> current local name
 	eng     *Engine
 	c       *Ctx
 	m       *Mem
